@@ -228,3 +228,76 @@ def run_fault(f, fault, sub):
     except (IOError, KeyError, ValueError, AssertionError):
         return {'msg': None}
     return {'msg': 'a .mapping file with the fault %s was loaded without an error' % fault, 'text': lines}
+
+
+# ---------------------------------------------------------------- backward .map files (vermouth/map_input.py)
+def gen_backmap(rng):
+    """a backward mapping file: 1-3 [ molecule ] entries, origin / destination force-field lists in which some force fields
+    do not have the block, atoms mapped to one or several beads, '!' markers"""
+    mols = []
+    for resname in rng.sample(sorted(FROM_BLOCKS), rng.randint(1, 3)):
+        beads = TO_BLOCKS[resname][0]
+        lines = []
+        for atom in FROM_BLOCKS[resname][0]:
+            if rng.random() < 0.1:
+                continue
+            tgt = [rng.choice(beads) for _ in range(rng.choice([1, 1, 2, 3]))]
+            tgt = [('!' if rng.random() < 0.15 else '') + b for b in tgt]
+            # the same bead with and without '!' for one atom is an error: keep one form per bead
+            seen = {}
+            tgt = [seen.setdefault(t.lstrip('!'), t) for t in tgt]
+            lines.append([atom, tgt])
+        from_ffs = rng.choice([['ffa'], ['ffa'], ['nowhere', 'ffa'], ['ffa', 'nowhere']])
+        to_ffs = rng.choice([['ffb'], ['ffb'], ['empty', 'ffb'], ['ffb', 'empty'], ['empty', 'ffb', 'nowhere']])
+        mols.append({'name': resname, 'from': from_ffs, 'to': to_ffs, 'lines': lines})
+    return {'mols': mols}
+
+
+def print_backmap(f):
+    out = []
+    for m in f['mols']:
+        out += ['[ molecule ]', m['name'], '[ from ]', ' '.join(m['from']), '[ to ]', ' '.join(m['to']), '[ martini ]',
+                ' '.join(TO_BLOCKS[m['name']][0]), '[ atoms ]']
+        for i, (atom, tgt) in enumerate(m['lines'], start=1):
+            out.append('%d %s %s' % (i, atom, ' '.join(tgt)))
+    return out
+
+
+def run_backmap(f):
+    """load with read_backmapping_file; every declared (origin, destination) pair whose force fields have the block must
+    yield the mapping, with weight multiplicity / number of plain targets and 0 for '!' targets"""
+    import vermouth.forcefield
+    from vermouth.map_input import read_backmapping_file
+    ffs = make_force_fields()
+    ffs['empty'] = vermouth.forcefield.ForceField(name='empty')          # a known force field without any block
+    lines = print_backmap(f)
+    try:
+        loaded = read_backmapping_file(lines, ffs)
+    except Exception as e:  # pylint: disable=broad-except
+        return {'msg': 'a well-formed .map file was rejected: %s: %s' % (type(e).__name__, e), 'text': lines}
+    for m in f['mols']:
+        for fr in m['from']:
+            for to in m['to']:
+                have = fr in ffs and to in ffs and m['name'] in ffs[fr].blocks and m['name'] in ffs[to].blocks
+                got = loaded.get(fr, {}).get(to, {}).get(m['name'])
+                if not have:
+                    if got is not None:
+                        return {'msg': 'mapping %s %s->%s loaded although a force field lacks the block' % (m['name'], fr, to), 'text': lines}
+                    continue
+                if got is None:
+                    return {'msg': 'the mapping of %s from %s to %s is declared (both force fields have the block) but was not loaded; loaded: %r' % (
+                        m['name'], fr, to, {a: {b: sorted(c) for b, c in v.items()} for a, v in loaded.items()}), 'text': lines}
+                want = {}
+                for atom, tgt in m['lines']:
+                    plain = [t for t in tgt if not t.startswith('!')]
+                    for t in tgt:
+                        b = t.lstrip('!')
+                        w = Fraction(0) if t.startswith('!') else Fraction(plain.count(t), len(plain))
+                        want.setdefault(atom, {})[b] = w
+                have_w = {}
+                for fi, tos in got.mapping.items():
+                    for ti, w in tos.items():
+                        have_w.setdefault(got.block_from.nodes[fi]['atomname'], {})[got.block_to.nodes[ti]['atomname']] = Fraction(w).limit_denominator(10 ** 6)
+                if have_w != want:
+                    return {'msg': 'weights of %s %s->%s: declared %r loaded %r' % (m['name'], fr, to, want, have_w), 'text': lines}
+    return {'msg': None}
